@@ -12,7 +12,7 @@ NAME_FORMS = ['bold', 'faint', 'italic', 'red', 'blue', 'bg_red', 'bg_blue', 'un
               'BOLD', 'Fg Red', 'bg-blue', 'alt_font_1', 'default_font', 'overlined', 'no_overlined',
               'slow_blink', 'rapid_blink', 'crossed_out', 'framed', 'encircled', 'hide', 'swap_bg_fg']
 INT_FORMS = [1, 2, 3, 4, 21, 22, 24, 31, 34, 39, 41, 44, 49, 53, 55, 10, 11, 90, 107]
-STR_CODE_FORMS = ['1;31', '31;1', '38;5;214', '38;2;1;2;3', '48;5;21', '4;58;5;9', '1', '22', '0;1']
+STR_CODE_FORMS = ['1;31', '31;1', '38;5;214', '38;2;1;2;3', '48;5;21', '4;58;5;9', '1', '22', '0;1', ';', ';;', 'bold;', ';31', '1;;4', '73;italic', '38;7;red']
 FN_FORMS = ['rgb(1,2,3)', 'bg_rgb(0x10, 0x20, 0x30)', 'ul_rgb(0xFF00FF)', 'dul_color256(7)', 'fg_colour256(0x10)',
             'rgb([300,2,3])', 'color256(255)']
 VERBATIM_WF = ['[1;31', '[38;5;214', '[99', '[1', '[31', '[34', '[0']          # well-formed groups (99: unknown code)
@@ -77,8 +77,10 @@ class Gen:
             return ['str', ';'.join(r.choice(NAME_FORMS + [str(x) for x in INT_FORMS]) for _ in range(r.randint(2, 3)))]
         if k < 0.88:
             # integer runs, possibly a colour group split over list items
-            return ['list', [['int', x] for x in r.choice([[38, 5, 214], [1, 38, 5, 214], [38, 2, 1, 2, 3, 4], [4, 58, 5, 9], [1, 31], [38, 5], [0], [31, 0, 1]])]]
+            return ['list', [['int', x] for x in r.choice([[38, 5, 214], [1, 38, 5, 214], [38, 2, 1, 2, 3, 4], [4, 58, 5, 9], [1, 31], [38, 5], [0], [31, 0, 1], [73], [38, 7]])] + ([['str', r.choice(NAME_FORMS)]] if r.random() < 0.5 else [])]
         kind = 'list' if r.random() < 0.7 else 'tuple'
+        if r.random() < 0.1:
+            return [kind, [r.choice([['str', ''], ['list', []], ['str', ';']])]]      # truthy, but names no setting
         return [kind, [self.form(depth + 1) for _ in range(r.randint(0, 3))]]
 
     def forms(self, lo=0, hi=2):
